@@ -216,7 +216,7 @@ def plans(ctx):
         P.append(dict(name="realmb", confs=real_mb, sizes=[16, MB // 2, MB, MB + 1], maxops=4, maxday=0, pick=32))
         P.append(dict(name="realdaily", confs=real_daily, sizes=[8, 40], maxops=4, maxday=1))
         P.append(dict(name="largesmall", confs=ls_confs + [C("size", 64, days=2, maxBackups=1, pre=[49], precur=20)],
-                      sizes=[8, 16, 24], maxops=9, maxday=0, prefixes=LS_PREFIX + [(32, 40, 8, 8)]))
+                      sizes=[8, 16], maxops=9, maxday=0, prefixes=LS_PREFIX + [(32, 40, 8, 8)]))
         P.append(dict(name="burst", confs=burst_confs, sizes=[32, 65], maxops=4, maxday=1, burst=BURSTS))
         P.append(dict(name="burst5", confs=[C("size", 64, maxBackups=5, gzip=True, pre=[200, 73, 49, 1], delim="_"),
                                             C("size", 64, gzip=True, days=2, pre=[73, 1]), C("size", 64, pre=[1], precur=20)],
